@@ -66,14 +66,9 @@ func checkC12(w *World) {
 				found[kind] = true
 				used := map[string]bool{}
 				selectorGuard := false
+				arms := typeSwitchArms(nameFn)
 				for _, b := range nameFn.Blocks {
-					under := false
-					for _, at := range guardAtoms(b) {
-						if ex, ok := at.V.(*ssa.Extract); ok && ex.Tuple == ssa.Value(ta) && ex.Index == 1 && at.Pol {
-							under = true
-						}
-					}
-					if !under {
+					if !arms[b][ta] {
 						continue
 					}
 					for _, at := range guardAtoms(b) {
@@ -81,11 +76,12 @@ func checkC12(w *World) {
 							selectorGuard = true
 						}
 					}
-					for _, in := range b.Instrs {
+					// accessors used in the arm, also inside helpers of the package that the arm hands the node to
+					withCallees([]*ssa.BasicBlock{b}, "exec", nameFn, func(in ssa.Instruction) {
 						if c, ok := in.(*ssa.Call); ok && c.Call.IsInvoke() {
 							used[c.Call.Method.Name()] = true
 						}
-					}
+					})
 				}
 				ok := true
 				for _, a := range accs {
@@ -146,7 +142,7 @@ func checkC12(w *World) {
 		w.check(P, "R12.1", "name functions: empty node-set and wrong argument type", nameFn.Pos(), emptyOK && errOK, fmt.Sprintf("empty node-set returns \"\": %v; non-node-set returns an error: %v", emptyOK, errOK))
 		// expanded-name notation
 		fmtOK := false
-		allInstrs(nameFn, func(in ssa.Instruction) {
+		withCallees(nameFn.Blocks, "exec", nameFn, func(in ssa.Instruction) {
 			if c, ok := in.(*ssa.Call); ok && staticCallee(c) != nil && funcFullName(staticCallee(c)) == "fmt.Sprintf" {
 				if s, ok := constString(c.Call.Args[0]); ok && s == "{%s}%s" {
 					fmtOK = true
